@@ -374,6 +374,16 @@ func TestC08(t *testing.T) {
 		}
 		s.Seed.Term = lt + uint64(rapid.IntRange(0, 2).Draw(rt, "dterm0"))
 		s.Seed.Vote = rapid.SampledFrom([]string{"", "n2", "n3", "n1"}).Draw(rt, "vote0")
+		if k := len(s.Seed.Entries); k > 0 {
+			// the voter may have compacted its log: partly, or wholly (then everything it knows about its last
+			// entry is what compaction left behind)
+			switch rapid.IntRange(0, 5).Draw(rt, "compacted") {
+			case 0:
+				s.Seed.Boundary = s.Seed.Entries[k-1].Index
+			case 1:
+				s.Seed.Boundary = s.Seed.Entries[rapid.IntRange(0, k-1).Draw(rt, "boundaryAt")].Index
+			}
+		}
 		steps := rapid.IntRange(2, 15).Draw(rt, "steps")
 		k := 0
 		var queue []planned
@@ -436,6 +446,10 @@ var propC08Sim = &simProp{
 	Profile: func() sim.Profile {
 		p := propC02.Profile
 		p.Name = "C08"
+		// voters that have compacted their log while running (the last entry a voter compares a candidate with may be
+		// the one its snapshot ends with)
+		p.Snapshots = "both"
+		p.Patterns = append(append([]string(nil), p.Patterns...), "P30", "P30")
 		return p
 	}(),
 	Owns: []string{"C08"},
